@@ -74,6 +74,11 @@ class FlowMixin:
             sg = fresh("susp", z3.IntSort())
             g.assume(sg >= st0.susp + d)
             g.susp = sg
+            # suspensions since the start of the current async-generator step: only `>= 0` survives the back edge
+            dg = fresh("stepsusp", z3.IntSort())
+            g.assume(dg >= 0)
+            g.step_base = sg - dg
+            g.step_snap = None
             self.havoc_locals(g, assigned_names(stmt.body) | (assigned_names([stmt.target]) if for_ctx else set()), back[0][0])
             if may_suspend(stmt.body):
                 t_before = self.loop_field(g, "time")
@@ -121,6 +126,7 @@ class FlowMixin:
     def loop_iteration(self, stmt, st, results, back, for_ctx, idx, tag):
         """one iteration from state st. exits -> results (3-tuples: outcome, state, is_generic); back edges -> back"""
         is_generic = tag.endswith(".generic")
+        st.labels["iter_snap"] = st.snap()
 
         def add(o, s):
             results.append((o, s, is_generic))
@@ -666,7 +672,51 @@ class FlowMixin:
         return outs
 
     def asyncgen_yield(self, v, st, k):
-        raise Unsupported("async generator yield")
+        """`yield v` of an async generator: end of a step.  The consumer (same activity) then runs arbitrary code
+        -- including suspensions -- and either asks for the next item or abandons the generator (GeneratorExit)."""
+        c = self.cur_contract
+        if st.frames[0].func is not self.cur_func or len(st.frames) != 1:
+            raise Unsupported("yield of an inlined async generator")
+        st.note("yield#%d" % (st.step_no + 1))
+        if c is not None:
+            extra = {"result": v}
+            saved = st.labels.get("step_snap")
+            for i, cl in enumerate(c.step_ensures):
+                self.emit(st, "step_post", "step_ensures[%d]" % i, cl, self.eval_clause(cl, st, extra=extra))
+            if c.step_suspends is not None:
+                lo, hi = c.step_suspends
+                self.emit(st, "suspends", "step_suspends.min", "suspensions in this step >= %d" % lo, st.susp - st.step_base >= lo)
+                if hi is not None:
+                    self.emit(st, "suspends", "step_suspends.max", "suspensions in this step <= %d" % hi, st.susp - st.step_base <= hi)
+        self.at_suspension(st)
+        pre = st.snap()
+        old_time = self.loop_field(st, "time")
+        n = fresh("bodysusp", z3.IntVal(0).sort())
+        st.assume(n >= 0)
+        st.susp = st.susp + n
+        self.havoc_heap(st, full=True, reason="consumer body", pre=pre)
+        st.assume(self.loop_field(st, "time") >= old_time)
+        st.last_susp = st.snap()
+        st.inv_base = st.last_susp
+        self.assume_invariants_eagerly(st)
+        if c is not None and not c.no_invariants:
+            self.assume_kernel_facts(st)
+        st.step_base = st.susp
+        st.step_snap = st.last_susp
+        st.step_no += 1
+        outs = []
+        s1 = st.copy()
+        s1.note("next")
+        # the consumer asks for the next item from inside the same activity
+        s1.assume(self.eval_clause("loop.activity is me", s1))
+        outs.extend(k(NONE, s1))
+        s2 = st
+        ge = fresh("gexit", RefS)
+        s2.assume(ge != NULL)
+        s2.assume(cls_of(ge) == cls_const("GeneratorExit"))
+        s2.note("abandon[GeneratorExit]")
+        outs.append((Outcome("X", Val(REF("GeneratorExit"), ge)), s2))
+        return outs
 
 
 _cm_uid = [0]
